@@ -40,7 +40,7 @@ PROPS = {
         technique="Lean 4 proof (loop invariant by induction on fuel: accumulated ops denote the consumed prefix) + differential correspondence across engines",
     ),
     "C02": dict(
-        modules=["Copia.Props.C02", "Copia.Props.C02b", "Copia.Props.C02c", "Copia.Props.C18b"], namespaces=["Copia.C02"], runner="bb", bb_module="bb_bisync",
+        modules=["Copia.Props.C02", "Copia.Props.C02b", "Copia.Props.C02c", "Copia.Props.C18b", "Copia.Props.C08e"], namespaces=["Copia.C02"], runner="bb", bb_module="bb_bisync",
         assumptions=_BI_ASSUME, trusted_base=_BI_TB,
         level_text="Kernel-checked WHOLE-RUN theorem `no_version_lost` for the model of `copia bisync` (scan, reconcile against the trusted archive, apply the whole plan to the live trees), for every pair of trees and every archive: "
                    "under NoNameClash the run never stops on an I/O error and every content either side held before is held by BOTH sides afterwards, unless it was exactly the recorded base at its path and the other side had changed or deleted it. "
@@ -51,7 +51,7 @@ PROPS = {
         technique="Lean 4 proof (run invariant by induction over the plan, case analysis over the reconcile table) + executable-model correspondence on histories + version-survival oracle",
     ),
     "C06": dict(
-        modules=["Copia.Props.C06", "Copia.Props.C02b", "Copia.Props.C02c", "Copia.Props.C18b"], namespaces=["Copia.C06"], runner="bb", bb_module="bb_bisync",
+        modules=["Copia.Props.C06", "Copia.Props.C02b", "Copia.Props.C02c", "Copia.Props.C18b", "Copia.Props.C08e"], namespaces=["Copia.C06"], runner="bb", bb_module="bb_bisync",
         assumptions=_BI_ASSUME, trusted_base=_BI_TB,
         level_text="Kernel-checked WHOLE-RUN theorems for the model of `copia bisync`, for every pair of trees and every archive, under NoNameClash: `converges` (the run completes; afterwards A and B hold the same content at every path and the archive written records exactly that tree) "
                    "and `second_run_noop` (the next run plans nothing, reports no conflict and leaves both trees as they are), `conflict_outcome` (a divergent edit ends on both sides as the greater-hash version at the path and the other at the conflict-copy name), `swap_run` (naming the roots the other way round leaves the same bytes at every path on both sides, for a total antisymmetric hash order). For all maps: a converged pair with a matching record plans nothing; swapping the roots mirrors every decision. "
@@ -82,7 +82,7 @@ PROPS = {
         technique="Lean 4 proof (lookup characterisation of folds, permutation invariance) + black-box correspondence in three directions",
     ),
     "C13": dict(
-        modules=["Copia.Props.C13", "Copia.Props.C13b", "Copia.Props.C13c"], namespaces=["Copia.C13"], runner="bb", bb_module="bb_hubsync",
+        modules=["Copia.Props.C13", "Copia.Props.C13b", "Copia.Props.C13c", "Copia.Props.C13d"], namespaces=["Copia.C13"], runner="bb", bb_module="bb_hubsync",
         assumptions=_HUB_ASSUME + ["the hub side is the sequential CAS-Put semantics (its atomicity under concurrency is C03); a local tree with a top-level `.copia` directory is refused by the (repaired) hub and hub-sync reports the error",
                                    "interference is modelled per Put (stale `expected`); an environment that deletes files is outside 'still retrievable'"],
         trusted_base=_HUB_TB + ["tools/sshstub/ssh and tools/sshrelay (pausing relay) as SSH stand-ins"],
@@ -101,7 +101,7 @@ PROPS = {
         technique="Lean 4 proof over the run model + black-box second-run correspondence",
     ),
     "C08": dict(
-        modules=["Copia.Props.C08", "Copia.Props.C08b", "Copia.Props.C08c", "Copia.Props.C08d", "Copia.Props.C02c"], namespaces=["Copia.C08"], runner="bb", bb_module="bb_crash", timeout=3000,
+        modules=["Copia.Props.C08", "Copia.Props.C08b", "Copia.Props.C08c", "Copia.Props.C08d", "Copia.Props.C08e", "Copia.Props.C02c"], namespaces=["Copia.C08"], runner="bb", bb_module="bb_crash", timeout=3000,
         assumptions=_BI_ASSUME + ["'killed at any instant' is represented as 'before any libc call of the main thread' (strace injection); a kill inside one copy_file_range/write is covered by the staged file being opaque until renamed",
                                   "power loss is represented only by the ordering predicate fsync(staged data) → rename → record on the real trace, not by a page-cache model"],
         trusted_base=_BI_TB + ["strace (trace and signal injection)"],
@@ -113,7 +113,7 @@ PROPS = {
         technique="Lean 4 proof (invariant over every prefix of the step list) + strace trace conformance + exhaustive kill-point injection",
     ),
     "C09": dict(
-        modules=["Copia.Props.C09", "Copia.Props.C09b", "Copia.Props.C09c", "Copia.Props.C09d"], namespaces=["Copia.C09"], runner="bb", bb_module="bb_crash9", timeout=3000,
+        modules=["Copia.Props.C09", "Copia.Props.C09b", "Copia.Props.C09c", "Copia.Props.C09d", "Copia.Props.C09e"], namespaces=["Copia.C09"], runner="bb", bb_module="bb_crash9", timeout=3000,
         assumptions=_OW_ASSUME + ["'killed at any instant' = before any libc call of any copia thread (strace injection, per-thread counters); kills inside one write are covered by the staging file being opaque until renamed",
                                   "for push the remote command runs to completion on whatever part of the stream arrived (the property's setting)"],
         trusted_base=_OW_TB + ["strace (signal injection, -b execve)"],
@@ -150,7 +150,7 @@ PROPS = {
         technique="Lean 4 proof (inductive invariant over all interleavings and kills) + per-step observation of real multi-process schedules",
     ),
     "C11": dict(
-        modules=["Copia.Props.C11"], namespaces=["Copia.C11"], runner="bb", bb_module="bb_hub",
+        modules=["Copia.Props.C11", "Copia.Props.C11b"], namespaces=["Copia.C11"], runner="bb", bb_module="bb_hub",
         assumptions=_HUB_ASSUME, trusted_base=_HUB_TB,
         level_text="Kernel-checked theorems for ALL path strings: a path accepted by safe_join (Rust Path::components semantics) joined onto the root resolves — by the kernel's lexical walk — under the root; "
                    "so do its staging name and its conflict-copy name (suffixes appended to the string); a path is refused exactly when it is absolute or has a `..` component. "
